@@ -51,6 +51,26 @@ func helper() {
 		var _ Inner
 	}
 }
+
+// function literals outside any function declaration, and a method body
+var pkgLevelLit = func() {
+	type LitLocal interface{ LL() }
+	type Gen interface{ Shadow() }
+	var _ LitLocal
+	var _ Gen
+}
+
+var _ = struct{ f func() }{f: func() {
+	type Deep interface{ D() }
+	var _ Deep
+}}
+
+func (St) method() {
+	type InMethod interface{ IM() }
+	type unexp interface{ shadow2() }
+	var _ InMethod
+	var _ unexp
+}
 `
 
 const c07q = "package q\n\ntype Q interface{ QM() }\n"
@@ -254,7 +274,7 @@ func C07(c *core.Ctx) error {
 			pk["interfaces"] = core.M{"Exp": core.M{}}
 			exp = []string{P + "|Exp|MockExp"}
 		case "regex":
-			pk["config"] = core.M{"include-interface-regex": "Exp|Local|Inner"}
+			pk["config"] = core.M{"include-interface-regex": "Exp|Local|Inner|LitLocal|Deep|InMethod"}
 			exp = []string{P + "|Exp|MockExp"}
 		}
 		root["packages"] = core.M{P: pk}
